@@ -664,9 +664,18 @@ func (s *EtcdStore) deleteConsumerOffsets(ctx context.Context, topic string) err
 		return err
 	}
 	s.recordEtcdResult(nil)
+	// A committed-offset key ends in "/offsets/<topic>/<partition>". Match it at the
+	// end of the key: a substring test also hits the keys of other topics whenever
+	// "/offsets/<topic>/" occurs earlier in the key (group "offsets" and topic
+	// "offsets": every commit of that group, or a group id containing the marker).
+	suffix := fmt.Sprintf("/offsets/%s", topic)
 	for _, kv := range resp.Kvs {
 		key := string(kv.Key)
-		if strings.Contains(key, fmt.Sprintf("/offsets/%s/", topic)) {
+		i := strings.LastIndexByte(key, '/')
+		if i < 0 || !strings.HasSuffix(key[:i], suffix) {
+			continue
+		}
+		if _, perr := strconv.ParseInt(key[i+1:], 10, 32); perr == nil {
 			delCtx, cancel := context.WithTimeout(ctx, 3*time.Second)
 			_, delErr := s.client.Delete(delCtx, key)
 			cancel()
